@@ -50,9 +50,9 @@ func init() {
 func usable(name string) bool { return idRE.MatchString(name) && !reserved[name] }
 
 type config struct {
-	Name, Input, Pre         string
+	Name, Input, Pre          string
 	Debug, Verbose, Help, Ver bool
-	Fault                    string // "" or "<syscall>:<errno>:<k>"
+	Fault                     string // "" or "<syscall>:<errno>:<k>"
 }
 
 func (c config) String() string {
